@@ -46,6 +46,18 @@ CHECKS = {
  "C19": dict(level=EX, engine="cases", technique="definitional TLA+ module (Helpers.tla) - TLC enumerates the complete bounded domain of each helper and evaluates a definition different from the library's algorithm; case replay",
              text="Exhaustive enumeration: all 3999 integers for both roman conversions (canonical numeral by digit tables and the inverse law), all sequences over a 3-symbol alphabet up to length 4-6 x reverse flag for arg_sort (stable permutation), all needle/haystack pairs for sub_seq/search_sub_seq, all pairs for multiset equality, all (n, batch_size) for Batcher/BatcherIter incl. lock-step tuples; plus seeded longer inputs evaluated by TLC on demand.",
              note="pure total functions: a weak fit for a state machine, decided with the TLA+ definitions as oracle at exploration level", ref="4 C19, 7"),
+ "C01": dict(level=MC, engine="simworld+tracecheck", technique="real own_proc_pools.py under a deterministic scheduler (simworld); schedules by preemption-bounded DFS + random/PCT walks; every execution's observer events validated by TLC against the TLA+ observer spec PoolObs.tla (results clause); design model FunctorPool.tla model-checked by TLC",
+             text="The property is stated once, over API-visible events, in PoolObs.tla (a call yields exactly the elements of its own input, once, in order / chunk-order-preserving for unordered). The real source runs with threading/multiprocessing/queue replaced by scheduler-controlled shims and shared pool attributes instrumented, so the schedule is an input: for a seeded scenario family (0-7 elements, lists and lazy generators, chunk sizes 1-3, 1-3 workers, queue bounds, both pools) schedules are enumerated up to a preemption bound and sampled; TLC accepts or rejects each recorded execution.",
+             note="shim fidelity (documented blocking semantics of queue/multiprocessing primitives; an item is visible as soon as put returns); atomicity between visible operations; bounded exploration (preemption bound + random/PCT walks), not all schedules of the real code; explicit integer work_queue_maxsize >= number of workers", ref="4 C01, 2.4"),
+ "C02": dict(level=MC, engine="simworld+tracecheck", technique="as C01 with the termination clause of PoolObs.tla: a deadlock is a state of the controlled world (no enabled task) and is judged by TLC as a 'hang' event the spec never allows",
+             text="Same machinery as C01 with scenarios stressing late StopIteration (lazy inputs, feeder scheduled arbitrarily late) and flow control (results_queue_maxsize=1, workers finishing out of order); every explored schedule must end with the generator finished and the context left; a state with no enabled task is reported with the schedule that reached it.",
+             note="shim fidelity (documented blocking semantics of queue/multiprocessing primitives; an item is visible as soon as put returns); atomicity between visible operations; bounded exploration (preemption bound + random/PCT walks), not all schedules of the real code; explicit integer work_queue_maxsize >= number of workers", ref="4 C02, 2.4"),
+ "C03": dict(level=MC, engine="simworld+tracecheck", technique="as C01/C02 on sequences of 2-4 calls and FactoryFunctorPool with quotas (retirement inside and exactly at the end of calls); values carry the call number so leakage is rejected by PoolObs.tla",
+             text="Multi-call scenarios (different lengths, chunk sizes, ordered/unordered, empty inputs in between) and quota-driven worker replacement on one pool instance, results + termination clauses enforced; schedules explored as in C01.",
+             note="shim fidelity (documented blocking semantics of queue/multiprocessing primitives; an item is visible as soon as put returns); atomicity between visible operations; bounded exploration (preemption bound + random/PCT walks), not all schedules of the real code; explicit integer work_queue_maxsize >= number of workers", ref="4 C03, 2.4"),
+ "C04": dict(level=MC, engine="simworld+tracecheck", technique="as C03 with the lifecycle clause of PoolObs.tla; the module's own worker class is subclassed to report begin/item/end; faults injected in begin() and in the functor at chosen elements; until_all_ready probed",
+             text="Every worker's begin / functor applications / end are observer events; PoolObs.tla enforces begin once and first, items only between completed begin and end, at most quota chunks, end once (also on the fault paths), until_all_ready only when every worker in the slots has completed begin, and no worker task alive after the context is left; fault positions are enumerated (every worker x begin / element 0 / element 1).",
+             note="shim fidelity (documented blocking semantics of queue/multiprocessing primitives; an item is visible as soon as put returns); atomicity between visible operations; bounded exploration (preemption bound + random/PCT walks), not all schedules of the real code; explicit integer work_queue_maxsize >= number of workers", ref="4 C04, 2.4"),
 }
 PENDING = "check not built yet in this session (planned, see DESIGN.md section 4)"
 
